@@ -146,6 +146,8 @@ CHECKS = {
             "real code on both sides: the active's HASyncer (PushChange, broadcastToClients, /ha/sessions and /ha/sessions/stream handlers served by a real net/http server), the standby's HASyncer (performFullSync, connectToStream incl. SSE parsing, handleSSEData), both InMemorySessionStores",
             "the harness plays the active's session manager (store mutation, then PushChange), the broadcast goroutine (body of broadcastLoop run synchronously per change, hook VerifBroadcastPending), the standby's reconnect loop (full sync, then attach - as standbyLoop does) and the network (an http.RoundTripper installed as http.DefaultTransport hands the stream to the standby one event per 'deliver' and can cut it)",
             "a Read on the stream body is the barrier that tells the harness the standby has processed what it was given; an expected stream event that does not arrive within 10 s counts as never sent (confirmed by the replay on fresh objects)",
+            "the network also carries the GET /ha/sessions the standby makes during an attachment: the attachment counts as complete when the standby waits for stream data AND has closed that response's body (is done with the snapshot), however connectToStream orders the two; 'attach racepush' holds the complete answer on the wire, lets the active change a session (pushed on the registered stream), offers that stream event to the standby and only then lets the snapshot through. The offer is withdrawn at once when the goroutine waiting for the snapshot answer is the one that opened the stream and nothing has read the stream yet (its reading can only come afterwards); otherwise the standby gets up to 2 s to take it. A change taken that way is reported as handed over (midhanded) and Convergence judges the tables right after the attachment",
+            "an end-to-end finding that does not show again on a fresh pair (3 fresh runs of the schedule) makes the driver repeat the whole check once without the end-to-end chains; only a violation reproduced by that second check replaces the infrastructure failure",
             "session content is abstracted to a version (1/2, 9 = anything else); tables are id -> version, 0 = absent; 2-4 session ids",
             "cutting the stream loses the events received from the active but not yet handed to the standby (deliver-then-cut is a different schedule of the same alphabet)",
             "tables and random chains run net/http over in-memory pipe connections (tens of thousands of node pairs would exhaust the ephemeral TCP ports); the end-to-end chains (e2e#i) use two Start()ed syncers - real listener on a loopback TCP port, real broadcastLoop and standbyLoop with reconnect backoff shortened to 5-20 ms by reflection - and are judged only at quiescent points (stream attached by the standby's own loop, a marker change pushed last has been processed, or 30 s of quiet have passed)",
